@@ -134,7 +134,7 @@ PROPS = {
     "C04": {
         "pf": True,
         "n": {"quick": 250, "thorough": 8000},
-        "cone": ["Bytes", "BytesLemmas", "Regex", "Generated", "Channel", "Network", "NetworkAbs", "NetworkLemmas", "NetworkTwins", "NetworkHistory", "NetworkHistoryLemmas", "Replay", "DecideLang", "GeneratedSkel", "DecideLemmas", "DecidePA", "DecideLemmas", "NetworkSrc", "PlatformTypes"],
+        "cone": ["Bytes", "BytesLemmas", "Regex", "Generated", "Channel", "Network", "NetworkAbs", "NetworkLemmas", "NetworkTwins", "NetworkHistory", "NetworkHistoryLemmas", "Replay", "DecideLang", "GeneratedSkel", "DecideLemmas", "DecidePA", "DecideLemmas", "NetworkSrc", "PlatformTypes", "AcquireSrc"],
         "rx": True,
         "rule": "network.Driver over the simulated transport against a privilege-tree device: random rooted labelled trees of 1-6 levels (with and "
                 "without authenticated edges, with/without secondary secret), every kind of start mode / default level, histories of 1-6 operations "
